@@ -152,7 +152,7 @@ theorem aol_table_import_export {V} (c : AddrCodec) (hc : c.Lawful) (k : Kind) (
   simp
 
 /-- **AOL: import ∘ export is the identity on whole states**: the four tables of a state whose tables are sorted and
-whose keys are admitted encodings (what every reachable state is: `Lemmas/AolInv`) are exported and imported back
+whose keys are admitted encodings (what every reachable state is: `Lemmas/AolKeys.keysInv_run`) are exported and imported back
 unchanged. -/
 theorem aol_import_export (c : AddrCodec) (hc : c.Lawful) (s : Aol.State)
     (hso : Map.Sorted s.owners) (hst : Map.Sorted s.topics) (hsw : Map.Sorted s.writers) (hsr : Map.Sorted s.records)
